@@ -50,6 +50,13 @@ GEN = {
     ("C20", "quick"): [("basic", ["P:A", "P:S"], 2, 1, 1, 0), ("chord", ["P:LEFTCTRL", "P:K"], 2, 1, 1, 0)],
     ("C20", "thorough"): [("basic", ["P:A", "R:A", "P:S"], 3, 1, 1, 1), ("chord", ["P:LEFTCTRL", "P:K", "R:K"], 3, 1, 2, 0), ("norep", ["P:LEFTSHIFT", "P:A", "P:S"], 3, 1, 1, 0)],
 }
+# random (simulated) behaviours at larger bounds
+SIM = {
+    "C10": [("basic", ["P:A", "R:A", "P:S", "R:S"], 6, 1, 1, 1), ("absorb", ["P:C", "P:A", "R:A", "P:B", "R:C"], 6, 1, 0, 1)],
+    "C11": [("basic", ["P:S", "R:S", "P:A"], 5, 2, 4, 0), ("norep", ["P:LEFTSHIFT", "P:S", "R:S", "P:D", "R:LEFTSHIFT"], 6, 1, 4, 0), ("chord", ["P:LEFTCTRL", "R:LEFTCTRL", "P:K", "R:K"], 5, 1, 4, 0)],
+    "C12": [("basic", ["P:S", "R:S", "P:A", "R:A"], 6, 3, 2, 0), ("absorb", ["P:C", "R:C", "P:A", "P:B"], 6, 3, 0, 0), ("chord", ["P:LEFTCTRL", "P:K", "R:K", "R:LEFTCTRL"], 5, 3, 2, 0)],
+    "C20": [("basic", ["P:A", "R:A", "P:S"], 4, 2, 2, 1)],
+}
 INVARIANTS = ["NoLostWakeup", "SendsAreMapperOutputs", "QuietInTabletMode", "HeldMatches", "ReleasedInTablet", "ChordsAreTransient", "StopsOnFailure", "EmitSchedule"]
 # registers of LoopTrace that must be non-zero for a run of the property to be non-vacuous
 NEED = {"C10": [4, 8], "C11": [3, 6], "C12": [5, 9, 10], "C20": [7]}
@@ -97,18 +104,18 @@ def generate(res, wd, prop, tier):
     cfgs = GEN[(prop, tier)]
     runs = [gen_run(wd, i, c, 4) for i, c in enumerate(cfgs)]
     sims = []
-    if tier == "thorough":
-        # longer random behaviours of the same specification
-        for i, c in enumerate(cfgs[:3]):
-            lname, kevs, ma, mt, mto, mi = c
-            r = gen_run(wd, 100 + i, (lname, kevs, ma + 4, mt + 1, mto + 2, mi), 1, simulate=(3000, 80))
-            r.extra += ["-seed", str(seed() + i)]
-            sims.append(r)
+    # longer random behaviours of the same specification (TLC -simulate): histories of up to 6 events with up to 3 tablet events and 3 time-outs,
+    # beyond what is enumerated exhaustively. The quick tier uses a fixed seed (its verdict never varies), the thorough tier VERIF_SEED.
+    simcfgs = SIM[prop]
+    for i, c in enumerate(simcfgs):
+        r = gen_run(wd, 100 + i, c, 1, simulate=(1500 if tier == "quick" else 12000, 90))
+        r.extra += ["-seed", str(7 + i if tier == "quick" else 1000 * seed() + i)]
+        sims.append(r)
     t0 = time.time()
     run_tlc_many(runs + sims, procs=4)
     gen = dist = 0
     cases = []
-    for r, c in zip(runs + sims, cfgs + cfgs[:len(sims)]):
+    for r, c in zip(runs + sims, cfgs + simcfgs):
         err = r.other_error()
         if r.invariant_violated():
             res.tool_errors.append("design-level invariant %s of Loop.tla is violated in configuration %s (the specification itself is wrong): see %s" % (r.invariant_violated(), c, r.name))
